@@ -8,7 +8,7 @@
      smono st st'        st' is st with some locks removed                     (ProofsStore)
      covered pieces k    some piece contains k                                 (ProofsDel) *)
 From Verif Require Import Base.Lex RangeTask.Model RangeTask.ProofsOrd RangeTask.ProofsStore RangeTask.ProofsPart
-  RangeTask.ProofsInv RangeTask.ProofsScan RangeTask.ProofsGc RangeTask.ProofsOut RangeTask.ProofsDel RangeTask.ProofsTerm RangeTask.ProofsAsync RangeTask.ProofsVis RangeTask.ProofsProps.
+  RangeTask.ProofsInv RangeTask.ProofsScan RangeTask.ProofsGc RangeTask.ProofsOut RangeTask.ProofsDel RangeTask.ProofsTerm RangeTask.ProofsAsync RangeTask.ProofsVis RangeTask.ModelView RangeTask.ProofsView RangeTask.ProofsProps.
 Open Scope N_scope.
 
 (* ---- range task: for every range (unbounded end included) and every sequence of layouts, the sub-ranges
@@ -29,15 +29,35 @@ Theorem C14_partition_layouts : forall layouts rpt, (0 < rpt)%nat ->
 Proof. exact batch_end_of_after. Qed.
 Print Assumptions C14_partition_layouts.
 
+(* ---- the ScanLock answer is a PROJECTION of the store's records (ModelView): the theorems below hold for every
+   view that is faithful -- keeps key, start ts, primary and whether the lock is pessimistic; it may drop the value, the
+   put/delete distinction, the write history.  TiKV's answer (typed_view) is faithful; an answer without lock_type
+   (untyped_view: mocktikv before fix F41) is not, and with it the statement is FALSE. *)
+Theorem C14_typed_answer_faithful : faithful_view typed_view /\ ~ faithful_view untyped_view.
+Proof. exact (conj typed_view_faithful untyped_view_not_faithful). Qed.
+Print Assumptions C14_typed_answer_faithful.
+
+(* with the untyped answer a successful pass over a well-formed population rolls back the secondary prewrite lock of a
+   COMMITTED transaction (stale-primary pessimistic lock of the same transaction scanned first): outcomes are not kept *)
+Theorem C14_untyped_answer_refuted : exists st0 sp limit os st' tr,
+  wf_store st0 /\ Forall (oracle_ok st0 sp) os /\
+  gc_resolve_range_v untyped_view 20 sp limit [] [] os st0 = GcOk st' tr /\
+  st' <> resolve_all st0 sp /\
+  exists r l c, In r st0 /\ k_lock r = Some l /\ is_pess l = false /\ l_start l <= sp /\
+                committed_at st0 (l_primary l) (l_start l) = Some c /\ committed_at st' (k_key r) (l_start l) = None.
+Proof. exact untyped_answer_refuted. Qed.
+Print Assumptions C14_untyped_answer_refuted.
+
 (* ---- ResolveLocksForRange: any lock population, any scan limit >= 1, any sequence of regions, any
    legitimate interference before each scan and between scan and resolve: after a successful pass no lock
    with start <= sp is left in [s,e), and it stays so under further lock-removing steps *)
-Theorem C14_no_old_lock : forall st0 sp limit s e fuel os st st' tr,
+Theorem C14_no_old_lock : forall view st0 sp limit s e fuel os st st' tr,
+  faithful_view view ->
   wf_store st0 -> (0 < limit)%nat -> InvP st0 sp st -> Forall (oracle_ok st0 sp) os ->
-  gc_resolve_range fuel sp limit s e os st = GcOk st' tr ->
+  gc_resolve_range_v view fuel sp limit s e os st = GcOk st' tr ->
   (forall r, In r st' -> in_range s e (k_key r) = true -> old_lock sp r = false) /\
   (forall st'', smono st' st'' -> forall r, In r st'' -> in_range s e (k_key r) = true -> old_lock sp r = false).
-Proof. exact gc_no_old_lock. Qed.
+Proof. exact gc_no_old_lock_v. Qed.
 Print Assumptions C14_no_old_lock.
 
 (* termination within a stated fuel: if every region end ever observed lies in a finite set S (or is
@@ -51,19 +71,21 @@ Proof. exact C14_gc_terminates_proof. Qed.
 Print Assumptions C14_gc_terminates.
 
 (* the whole resolve-locks phase: the handler run on every sub-range, in any order *)
-Theorem C14_no_old_lock_pass : forall st0 sp limit fuel tasks st',
+Theorem C14_no_old_lock_pass : forall view st0 sp limit fuel tasks st',
+  faithful_view view ->
   wf_store st0 -> (0 < limit)%nat -> Forall (fun t => Forall (oracle_ok st0 sp) (snd t)) tasks ->
-  gc_pass fuel sp limit tasks st0 = Some st' ->
+  gc_pass_v view fuel sp limit tasks st0 = Some st' ->
   (forall r, In r st' -> covered (map fst tasks) (k_key r) = true -> old_lock sp r = false) /\
   ((forall k, covered (map fst tasks) k = true) -> st' = resolve_all st0 sp).
-Proof. exact gc_pass_no_old_lock. Qed.
+Proof. exact gc_pass_no_old_lock_v. Qed.
 Print Assumptions C14_no_old_lock_pass.
 
 (* ---- outcomes are kept: every key is untouched or resolved by its transaction's outcome, keys of the
    range are resolved, no transaction's outcome changes, a whole-keyspace pass yields exactly resolve_all *)
-Theorem C14_outcomes_kept : forall st0 sp limit s e fuel os st st' tr,
+Theorem C14_outcomes_kept : forall view st0 sp limit s e fuel os st st' tr,
+  faithful_view view ->
   wf_store st0 -> (0 < limit)%nat -> InvP st0 sp st -> Forall (oracle_ok st0 sp) os ->
-  gc_resolve_range fuel sp limit s e os st = GcOk st' tr ->
+  gc_resolve_range_v view fuel sp limit s e os st = GcOk st' tr ->
   keys st' = keys st0 /\
   (forall r', In r' st' -> exists r0, In r0 st0 /\ k_key r0 = k_key r' /\
        (r' = r0 \/ r' = resolve_by_outcome st0 sp r0) /\
@@ -71,7 +93,7 @@ Theorem C14_outcomes_kept : forall st0 sp limit s e fuel os st st' tr,
   (forall p t, (forall r l, In r st0 -> k_lock r = Some l -> l_start l = t -> is_pess l = false -> l_primary l = p) ->
        committed_at st' p t = committed_at st0 p t) /\
   (s = [] -> e = [] -> st' = resolve_all st0 sp).
-Proof. exact gc_outcomes_kept. Qed.
+Proof. exact gc_outcomes_kept_v. Qed.
 Print Assumptions C14_outcomes_kept.
 
 (* what "resolved by the outcome" means for one record: a committed primary => the lock's data is committed
@@ -173,6 +195,14 @@ Theorem C14_delete_range_exact : forall batch_end region_end fuel notify s e st 
   (forall k, covered pieces k = in_range s e k).
 Proof. exact C14_delete_range_exact_proof. Qed.
 Print Assumptions C14_delete_range_exact.
+
+(* ... and every DeleteRange request is clipped to the region it is sent to: it ends at that region's end, or earlier
+   (at the task range end, which the region end reaches or passes); the same holds for the sub-ranges of RunOnRange *)
+Theorem C14_delete_range_clipped : forall batch_end region_end fuel notify s e st st' pieces,
+  delete_range_task batch_end region_end fuel notify s e st = Some (st', pieces) ->
+  forall p, In p pieces -> exists j, snd p = region_end j (fst p) \/ end_reached (snd p) (region_end j (fst p)) = true.
+Proof. exact delete_range_task_clipped. Qed.
+Print Assumptions C14_delete_range_clipped.
 
 (* ---- visibility: with a fresh cache, a read below the cached txn safe point is refused with aborted-by-GC
    (no data returned), a read at or above it is served *)
